@@ -12,6 +12,7 @@ from rv.props.c01 import shape
 
 ANCHORS = ("io/aoef",)
 THOROUGH_SHARDS = 12
+AMBIENT_TESTS = ["tests/test_io"]
 _spec = None
 _inv_installed = False
 
@@ -121,3 +122,9 @@ def replay(ctx, w):
     AC.HOOKS[:] = [_hook]
     s = w["spec"]
     judge(ctx, s["collection"], s["graph_seed"], s["knobs"], s.get("audio_dir", "none"))
+
+
+def ambient_install():
+    AC.install()
+    install_invariant()
+    AC.HOOKS[:] = [_hook]
